@@ -64,6 +64,22 @@ def mirrors_for(unit, qual, kind='body'):
             if not post and ('k_%s%s_nopanic' % (pre, view)) in PKT_NOPANIC_HARNESSES:
                 res.append('k_%s%s_nopanic' % (pre, view))
             return res
+    if unit == 'pkt_checksum':
+        name = qual.split('::')[-1]
+        if name == 'finalize_checksum':
+            return ['k_finalize_checksum_contract']
+        if name in ('icmp_ipv4_checksum',):
+            return ['k_checksum_verifies_icmp4']
+        if name in ('udp_ipv4_checksum', 'ipv4_checksum', 'ipv4_word_sum'):
+            return ['k_checksum_verifies_udp4']
+        if name == 'tcp_ipv4_checksum':
+            return ['k_checksum_verifies_tcp4']
+        if name in ('udp_ipv6_checksum', 'ipv6_checksum'):
+            return ['k_checksum_verifies_udp6']
+        if name == 'icmp_ipv6_checksum':
+            return ['k_checksum_verifies_udp6']
+        if name in ('sum_be_words', 'checksum', 'ipv4_header_checksum'):
+            return ['k_checksum_verifies_icmp4', 'k_checksum_verifies_ipv4hdr', 'k_checksum_verifies_udp4']
     if unit == 'core_net_build':
         fam = '6' if '::ipv6::' in qual else '4'
         name = qual.split('::')[-1]
@@ -81,7 +97,7 @@ def mirrors_for(unit, qual, kind='body'):
 
 
 # harnesses that take minutes and tens of GB: never used as arbitration mirrors in the quick tier
-HEAVY_HARNESSES = set(['k4_recv_nopanic_icmp', 'k4_recv_nopanic_udp', 'k4_recv_nopanic_tcp', 'k6_recv_nopanic_icmp', 'k6_recv_nopanic_udp', 'k6_recv_nopanic_tcp',
+HEAVY_HARNESSES = set(['k_checksum_verifies_icmp6', 'k_checksum_verifies_tcp4', 'k4_recv_nopanic_icmp', 'k4_recv_nopanic_udp', 'k4_recv_nopanic_tcp', 'k6_recv_nopanic_icmp', 'k6_recv_nopanic_udp', 'k6_recv_nopanic_tcp',
                        'k4_roundtrip_icmp', 'k4_roundtrip_udp', 'k4_dispatch_udp_28', 'k4_dispatch_udp_33', 'k4_dispatch_icmp_33', 'k6_dispatch_icmp_53', 'k6_dispatch_udp_dublin'])
 
 PROPS = {
@@ -160,7 +176,7 @@ PROPS = {
         'technique': 'Verus contracts on probe_*_data, ProtocolStrategyResponse::from, validate against tables written from the property, plus round-trip / rejection lemmas; Kani round trip of real bytes through dispatch -> ICMP quotation -> recv_icmp_probe',
         'level_text': 'probe_icmp_data/probe_udp_data/probe_tcp_data are proved equal to the carrier table spec_probe_fields for every supported configuration (and never reach unimplemented!()); ProtocolStrategyResponse::from recovers the sequence from exactly the prescribed field (spec_recover_sequence); validate accepts exactly quotations with this tracer\'s destination, fixed port(s) and, for Dublin/IPv6, the marker. Lemma L1: for every supported configuration, every issuable sequence and round, the quotation of the probe is validated, passes the trace-id check and yields that sequence; L2: other destination, other fixed port or missing marker is rejected. The wire map assumed by L1 (ports->ports, IP id->identifier, UDP checksum field->actual checksum, UDP length->payload length) is checked on the real builders/parsers by Kani harnesses (bounded).',
         'level_note': 'Kani round-trip harnesses are bounded (concrete packet size 33, quotation = IP header+8 octets or full datagram, IPv4) and not counted as proved. TCP handshake answers (recv_tcp_socket) need a live socket: only field plumbing. IPv6 quotations: parser functions covered by the no-panic harnesses only.',
-        'units': ['core_strategy'],
+        'units': ['core_strategy', 'core_net_build'],
         'kani': {'quick': [], 'thorough': ['k4_roundtrip_icmp', 'k4_roundtrip_udp']},
         'assumptions': [],
         'explanation': 'probe identity round trip',
@@ -250,7 +266,8 @@ PROPS = {
         'level_text': 'Unbounded deductive proof: every public checksum function of trippy-packet/src/checksum.rs equals the RFC 1071 one\'s-complement checksum (with pseudo-header) of the data with the checksum field zeroed, for all data of length <= 65535 and all addresses; lemma: inserting the result makes the datagram sum fold to 0xFFFF.',
         'level_note': 'Trusted: Verus/Z3; shims u16::from_be_bytes, <[u8]>::try_into, Ipv4Addr::octets, ipv6_word_sum (iterator sum of segments); precondition len <= 65535.',
         'units': ['pkt_checksum', 'core_net_build'],
-        'kani': {'quick': ['k4_dispatch_udp_paris']},
+        'kani': {'quick': ['k4_dispatch_udp_paris', 'k_finalize_checksum_contract', 'k_checksum_verifies_icmp4', 'k_checksum_verifies_udp4', 'k_checksum_verifies_ipv4hdr'],
+                 'thorough': ['k4_dispatch_udp_paris', 'k_finalize_checksum_contract', 'k_checksum_verifies_icmp4', 'k_checksum_verifies_udp4', 'k_checksum_verifies_ipv4hdr', 'k_checksum_verifies_tcp4', 'k_checksum_verifies_udp6', 'k_checksum_verifies_icmp6']},
         'assumptions': [
             'data.len() <= 65535 (callers pass <= 1024-byte buffers); beyond that the u32 accumulator can overflow',
             'Ipv4Addr::octets / Ipv6Addr::segments are uninterpreted (spec_octets4 / spec_segments6); ipv6_word_sum (iterator adapters) is a trusted shim: sum of the 8 segments',
